@@ -44,8 +44,14 @@ def run(ctx):
             PLens=S(bulk if n == 12 else plens), TamperAllMax=(tam if n != 12 or not quick else 3))
     job("gcm_tags", Algs=q(["gcm"]), GcmTagLens=S(gt), Diagonal="TRUE")
     for n in cn:
-        job("ccm_n%d" % n, Algs=q(["ccm"]), CcmNonceLens=S([n]), CcmTagLens=S(ct if n in (7, 13) or not quick else [ct[0], ct[-1]]),
-            Diagonal="TRUE" if (quick or n not in (7, 13)) else "FALSE")
+        if quick:
+            job("ccm_n%d" % n, Algs=q(["ccm"]), CcmNonceLens=S([n]), CcmTagLens=S(ct if n in (7, 13) else [ct[0], ct[-1]]), Diagonal="TRUE")
+        else:
+            # every tag size on the diagonal; the full length product (with every-byte tampering up to 33 bytes) for the extreme tag sizes of the extreme nonce sizes
+            job("ccm_n%d" % n, Algs=q(["ccm"]), CcmNonceLens=S([n]), CcmTagLens=S(ct), Diagonal="TRUE", TamperAllMax=17)
+            if n in (7, 13):
+                for t in (4, 16):
+                    job("ccm_n%d_t%d_full" % (n, t), Algs=q(["ccm"]), CcmNonceLens=S([n]), CcmTagLens=S([t]), Diagonal="FALSE")
     # RFC 3610 AAD length encoding seam (2 octets below 2^16-2^8, 0xFFFE + 4 octets from there on)
     job("ccm_longaad", Algs=q(["ccm"]), CcmNonceLens=S([12]), CcmTagLens=S([16]), PLens=S([17]), ALens=S([65280] if quick else [65279, 65280, 65535, 65536]),
         TamperAllMax=0, Prefixes=S([0]), Diagonal="FALSE")
